@@ -61,7 +61,7 @@ def build_lens(seed, i):
         rnd = random.Random(seed + 7919 * attempt)
         # even i: closed-form surfaces only (spheres, conics, planes) - judged to float precision;
         # odd i: even aspheres mixed in - judged within their documented intersection tolerance
-        kinds = ("standard",) if i % 2 == 0 else ("standard", "standard", "even_asphere")
+        kinds = ("standard",) if (i % 2 == 0 or i % 8 == 3) else ("standard", "standard", "even_asphere")
         optic, meta = G.random_lens(rnd, kinds=kinds, mirrors=(i % 5 == 0),
                                     finite_object=finite, field_type="object_height" if finite else "angle")
         w0 = optic.primary_wavelength
@@ -82,6 +82,11 @@ def build_lens(seed, i):
             meta["variant"].append("focused")
         except Exception:
             optic.set_thickness(t_old, n - 2)
+    if i % 8 == 3 and _f(optic.image_surface.material_pre.n(w0)) != 1.0 and nrefl == 0:
+        # true immersion: the image surface carries the last medium on both sides (no refraction there)
+        optic = rebuild(optic, optic.image_surface.material_pre)
+        sg = optic.surface_group
+        meta["variant"].append("image_immersed")
     if not finite and i % 8 == 5:
         optic.set_index(rnd.choice([1.33, 1.5]), 0)     # immersed object space
         meta["variant"].append("object_immersed")
@@ -90,6 +95,34 @@ def build_lens(seed, i):
         meta["variant"].append("vignetted")
     meta["vignetted"] = "vignetted" in meta["variant"]
     return optic, meta
+
+
+def rebuild(optic, image_material):
+    """The same prescription (standard surfaces only) built again through add_surface, with a
+    medium given to the image surface."""
+    from optiland.optic import Optic
+    sg = optic.surface_group
+    pos = [_f(z) for z in sg.positions]
+    o = Optic()
+    last = len(sg.surfaces) - 1
+    for k, sf in enumerate(sg.surfaces):
+        if k == 0:
+            o.add_surface(index=0, thickness=(math.inf if sf.is_infinite else pos[1] - pos[0]), material=sf.material_post)
+        elif k == last:
+            o.add_surface(index=k, material=image_material)
+        else:
+            if type(sf.geometry).__name__ not in ("Plane", "StandardGeometry"):
+                raise ValueError("rebuild: standard surfaces only")
+            o.add_surface(index=k, radius=_f(sf.geometry.radius), conic=_f(getattr(sf.geometry, "k", 0.0)),
+                          thickness=pos[k + 1] - pos[k], material=sf.material_post, is_stop=bool(sf.is_stop))
+    o.set_aperture(optic.aperture.ap_type, optic.aperture.value)
+    o.set_field_type(optic.field_type)
+    for f in optic.fields.fields:
+        o.add_field(y=_f(f.y), x=_f(f.x), vx=_f(f.vx), vy=_f(f.vy))
+    pw = optic.primary_wavelength
+    for w in optic.wavelengths.get_wavelengths():
+        o.add_wavelength(w, is_primary=(w == pw))
+    return o
 
 
 def pick(rnd, n, k, must):
@@ -114,7 +147,7 @@ def block_events(optic, field, w, xs, ys, opds, inten, sel, full, tag, fan_n=0):
         e["irep"] = dy(float(inten[k]))
         e["iown"] = dy(float(sg_int[m]))
         e["_tag"] = dict(tag, field=[float(field[0]), float(field[1])], w=float(w), px=float(xs[k]),
-                         py=float(ys[k]), nimg=const["nimg"], nobj=const["nobj"], xpl=const["xpl"],
+                         py=float(ys[k]), nimg=const["nimg"], nimg_pre=const["nimg_pre"], nobj=const["nobj"], xpl=const["xpl"],
                          inf=const["inf"])
         out.append(e)
     return out
@@ -342,7 +375,7 @@ def main(ctx):
     counts = r.prints("COUNTS")
     ctx.extra["model_cases"] = counts[-1][1:] if counts else []
     # ---- 2. code -> spec ------------------------------------------------------
-    nlens = 36 if quick else 700
+    nlens = 36 if quick else 450
     tasks = [(ctx.seed * 104729 + 31 * i, i, quick) for i in range(nlens)]
     names = [c.__name__ for c in G.sample_classes()]
     snames = [s for s in SAMPLES if s in names][: (5 if quick else len(SAMPLES))]
@@ -354,7 +387,7 @@ def main(ctx):
     events, tags = [], {}
     nl = 0
     by = {"infinite/angle": 0, "finite/height": 0, "xp_real(xpl<0)": 0, "xp_beyond_image(xpl>0)": 0,
-          "image_not_air": 0, "object_not_air": 0, "vignetted(chief only)": 0}
+          "image_not_air": 0, "refracting_image_surface": 0, "object_not_air": 0, "vignetted(chief only)": 0}
     views, dists = {}, {}
     for res in results:
         if res.get("skip"):
@@ -379,6 +412,7 @@ def main(ctx):
                 by["infinite/angle" if tg["inf"] else "finite/height"] += 1
                 by["xp_real(xpl<0)" if tg["xpl"] < 0 else "xp_beyond_image(xpl>0)"] += 1
                 by["image_not_air"] += tg["nimg"] != 1.0
+                by["refracting_image_surface"] += tg["nimg"] != tg["nimg_pre"]
                 by["object_not_air"] += tg["nobj"] != 1.0
                 by["vignetted(chief only)"] += not e["full"]
     ctx.extra["lenses_recorded"] = nl
@@ -442,7 +476,8 @@ def main(ctx):
     for cid, cl in expect.items():
         kinds[cl[0]] = kinds.get(cl[0], 0) + 1
     ctx.extra["calibration"] = {"corruptions": len(cal), "by_expected_clause": kinds, "missed": len(missed)}
-    if len(cal) < 20:
+    if len(cal) < 20 and not ctx.violations:
+        # (with violations on record, few accepted events are the code's doing, not the machinery's)
         raise T.MachineryError("calibration set too small (%d): too few accepted events" % len(cal))
     if missed:
         raise T.MachineryError("corrupted events not rejected (spec too permissive): %s" % missed[:3])
@@ -453,6 +488,9 @@ def main(ctx):
         "inside the sphere); the property text does not fix the cap, and for an exit pupil beyond the image (XPL > 0) this is the "
         "cap opposite the pupil - the two choices differ at second order in the aberration",
         "XPL is read from optic.paraxial.XPL() (its correctness is C04's business); indices from the media objects (C18)",
+        "image space = the medium behind the image surface (material_post): the image surface is an ordinary surface, its record "
+        "holds the direction after it (refracted into air when the last medium is glass and the image surface was added without a "
+        "medium); the law is judged in that medium",
         "samples whose image point is farther than R/2 from the chief image point are not judged (ill-conditioned sphere intersection)",
         "fields with non-zero vignetting factors: only OPD(chief) = 0 is judged (the property is silent on vignetting)",
         "RMS is the documented root-mean-square of the OPD values (not relative to their mean)",
